@@ -127,7 +127,7 @@ func (c05) Run(c *Ctx, raw json.RawMessage) Case {
 	}
 	src.WriteString("}\n")
 	files := map[string]string{
-		"go.mod":         goModText + "\nrequire github.com/stretchr/testify v1.10.0\n",
+		"go.mod":         goModText + "\nrequire github.com/stretchr/testify v1.10.0\n\nrequire (\n\tgithub.com/davecgh/go-spew v1.1.1 // indirect\n\tgithub.com/pmezard/go-difflib v1.0.0 // indirect\n\tgithub.com/stretchr/objx v0.5.2 // indirect\n\tgopkg.in/yaml.v3 v3.0.1 // indirect\n)\n",
 		"store/store.go": src.String(),
 	}
 	if b, err := os.ReadFile(filepath.Join(c.Src, "go.sum")); err == nil {
